@@ -94,10 +94,13 @@ func H17Verify() {
 	entries := map[string]string{}
 	type ent struct{ name, tok string }
 	var ents []ent
+	// what the signed message lists is attacker-chosen text: the right algorithm
+	// marker, another one, a differently spelled one, or none
+	markers := []string{"sha256:", "sha512:", "SHA256:", "md5:", ""}
 	for k := 0; k < n; k++ {
 		e := ent{ndStringIn("entry.name", ndIntRange("entry.len", 1, 2), "ab"), ndStringIn("entry.digest", 2, "01")}
 		ents = append(ents, e)
-		entries[e.name] = "sha256:" + e.tok // later entries with the same name replace earlier ones (YAML map)
+		entries[e.name] = markers[ndChoice("entry.marker", len(markers))] + e.tok // later entries with the same name replace earlier ones (YAML map)
 	}
 	var ver *Verification
 	var err error
@@ -144,8 +147,9 @@ func nativeVerify(base, digest string, existsChart, existsSig, decodeOK, sigVali
 	if parseOK {
 		msg += "\n...\nfiles:\n"
 		for name, tok := range entries {
-			dg := realDigest("archive-" + tok[len("sha256:"):])
-			msg += "  " + name + ": sha256:" + dg + "\n"
+			cut := len(tok) - 2 // marker, then the two-character digest token
+			dg := realDigest("archive-" + tok[cut:])
+			msg += "  " + name + ": \"" + tok[:cut] + dg + "\"\n"
 		}
 		if len(entries) == 0 {
 			msg += "  {}\n"
